@@ -409,8 +409,9 @@ class TenantWorld(object):
             else:
                 f6['eval'] = P.pick(rng, EVAL_FORMULAS)
             ev['faults'].append(f6)
-        if rng.random() < rates.get('F3', 0) and ev['expect'] is None and ev['icls'] != 'wrongkind' \
-                and not any(f['kind'] == 'F6' for f in ev['faults']):
+        deep_cls = tp['bp']['cls'] not in ('StringGrader', 'SimItemGrader')     # calls deep enough to strike
+        if deep_cls and rng.random() < rates.get('F3', 0) * 1.6 and ev['expect'] is None \
+                and ev['icls'] != 'wrongkind' and not any(f['kind'] == 'F6' for f in ev['faults']):
             ev['headroom'] = rng.random()
             ev['faults'].append({'kind': 'F3'})
         elif rng.random() < rates.get('budget', 0):
@@ -771,32 +772,23 @@ class Run(object):
             return self.replica_outcome(gid, ev, expect, inp, kw, prime, measure)
 
         if 'headroom' in ev:
-            # F3: measure the call's peak depth on the replica, then strike inside it
+            # F3: the depth of a call is almost entirely pyparsing recursion on strings the shared
+            # parser has not seen yet (measured: about 60-135 frames cold, about 20 warm), and any
+            # earlier replica run would warm that cache.  So the original goes FIRST, with a
+            # headroom drawn blind from [40, 140): above what the unguarded prologue/epilogue
+            # need (measured <= 22 frames), inside the parse/eval recursion when the call is cold.
+            headroom = 40 + int(ev['headroom'] * 100)
+            o, raw, x = self.deliver(g, self.env, ev, expect, inp, kw, headroom=headroom)
+            self.bump(self.stats, 'F3.armed')
             o2, x2, b2 = run_replica()
-            # measure on a second fresh replica: the shared parser cache is now as warm as it
-            # will be for the original, so the measured depth is the depth the original needs
-            _, xm, _ = run_replica(measure=True)
-            x2 = dict(x2)
-            x2.update({'peak': xm.get('peak', 0), 'outside': xm.get('outside', 100)})
-            peak = x2.get('peak', 0)
-            # the fault must land inside the region the library guards: leave the unguarded
-            # prologue/epilogue (input validation, message formatting) the stack they need
-            floor = x2.get('outside', 100) + 15
-            if peak > floor + 5:
-                headroom = floor + int(ev['headroom'] * (peak - floor))
-                o, raw, x = self.deliver(g, self.env, ev, expect, inp, kw, headroom=headroom)
-                self.bump(self.stats, 'F3.armed')
-                if o != o2:
-                    self.bump(self.stats, 'F3.struck')
-            else:
-                o, raw, x = self.deliver(g, self.env, ev, expect, inp, kw)
-                self.bump(self.probes, 'F3 skipped: call too shallow')
+            if o != o2:
+                self.bump(self.stats, 'F3.struck')
             debug_on = bool(g.config.get('debug'))
             if o != o2:
                 ok = o['k'] == 'exc' and (debug_on or o['fam'] != 'other')
                 if not ok:
-                    self.violate('F3', i, cls, 'struck call (headroom) gave %s, ample stack gives %s'
-                                 % (short(o), short(o2)))
+                    self.violate('F3', i, cls, 'struck call (headroom %d) gave %s, ample stack gives %s'
+                                 % (headroom, short(o), short(o2)))
         else:
             o, raw, x = self.deliver(g, self.env, ev, expect, inp, kw, budget=bool(ev.get('budget')))
             if need_r1:
